@@ -114,6 +114,9 @@ pub fn generate(rng: &mut Rng, n: usize, tier: &str) -> Vec<Value> {
                 push(depth, "sweep", *p, *q, x, &mut v);
             }
             // the grey diagonal and its neighbourhood (cube-versus-grey decision, grey thresholds)
+            if depth == "256" && !thorough && x % 2 == 1 {
+                continue;
+            }
             push(depth, "diag", x, x, x, &mut v);
             if thorough || depth == "gray" {
                 push(depth, "diag", x, x + 1, x, &mut v);
